@@ -27,6 +27,16 @@ CLAIMED = {
    ref="5 C08",
    note=("K_{5/6} uninterpreted; Gamma enclosures are hypotheses (checked against scipy each run); Reals axioms; Coq-Interval; "
          "Kolmogorov limit, Hankel identity and positive-definiteness are only tested numerically, not proved.")),
+ "C09": dict(
+   technique="Coq proof (DFT inversion/Parseval for all N) over a hand model + vm_compute correspondence + generated export table",
+   text=("Machine-checked proofs, for every length N>=1 and every batch shape, that ft/ift and ft2/ift2 as written (shift, transform, shift, "
+         "scale) are mutual inverses when delta_f = 1/(N delta), are linear, satisfy Parseval, and are centred on sample N/2 for even N; "
+         "built on a 1100-line DFT library (inversion from root-of-unity orthogonality, 2-D by rows/columns). The odd-N centring and the "
+         "real-input variants are refuted by binary64 witnesses (known findings); the package-level export of each transform is re-derived "
+         "from the star-import structure on every run. The model is run by vm_compute against numpy.fft-based code on every case."),
+   ref="5 C09",
+   note=("Hand-written model coq/model/Fourier.v tied by correspondence (explicit DFT sums vs numpy.fft, 1e-9); Reals axioms; "
+         "continuous-FT approximation and rft2/irft2 only in the numerical falsifier.")),
 }
 NOT_YET = {}
 ALL = ["C%02d" % i for i in range(1, 21)]
